@@ -66,6 +66,10 @@ fn log_packet(kind: &str, ep: &str, sender: &str, conn: i64, packet: &Packet, pa
     emit(json!({"ev": format!("{kind}p"), "ep": ep, "conn": conn, "sp": sp, "pn": pn, "t": ts_us(packet.timestamp), "len": len, "hash": hash,
                 "n": d.frames.len(), "el": d.eliciting, "cc": d.cc, "bad": d.error}));
     for mut f in d.frames {
+        if kind == "tx" && f["ty"] == "new_cid" && conn == 0 {
+            let seq = f["seq"].as_u64().unwrap_or(0);
+            crate::common::ISSUED_MAX.with(|c| { let mut v = c.get(); let i = crate::common::side(ep); if seq > v[i] { v[i] = seq; c.set(v); } });
+        }
         let m = f.as_object_mut().unwrap();
         m.insert("ev".into(), json!(format!("{kind}f")));
         m.insert("ep".into(), json!(ep));
